@@ -173,7 +173,7 @@ def main():
     na = [dict(property_id=p, reason=NA.get(p, 'not yet built in this round (work in progress; see DESIGN.md section 10)')) for p in ids if p not in CLAIMS]
     m = dict(version=1, setup_cmd='./setup',
              hooks=dict(guard='kurbo_verif', enable='RUSTFLAGS="--cfg kurbo_verif" (set by ./check when it builds the harness for C14)',
-                        baseline_off_cmd='cd /repo && cargo test --workspace --no-fail-fast --offline', source_commits=['f08e0b7', '7ed43b3'], add_only=True),
+                        baseline_off_cmd='cd /repo && cargo test --workspace --no-fail-fast --offline', source_commits=['f08e0b7', '7ed43b3', '8ca9c41'], add_only=True),
              engines=[dict(name='lean-proofs', path='lean/Proofs', serves_properties=sorted(CLAIMS), kind_free_text='Lean 4 + Mathlib theorems about the executable model'),
                       dict(name='rs2lean', path='tools/rs2lean.py', serves_properties=sorted(CLAIMS), kind_free_text='Rust-subset -> Lean translator; output re-proved equal to the model on every run'),
                       dict(name='kmodel', path='lean/Main.lean', serves_properties=sorted(CLAIMS), kind_free_text='line-protocol driver of the Lean model (exact Rat / Float)'),
